@@ -16,7 +16,7 @@
    stored child. *)
 From Coq Require Import List NArith ZArith Bool Arith Lia.
 Import ListNotations.
-From NV Require Import Gen.ObjFmtConsts ObjFmt.Model ObjFmt.Spec ObjFmt.Proofs ObjFmt.SliceProofs ObjFmt.Check.
+From NV Require Import Gen.ObjFmtConsts ObjFmt.Model ObjFmt.Spec ObjFmt.Proofs ObjFmt.SliceProofs ObjFmt.Check ObjFmt.RefProofs.
 Local Open Scope N_scope.
 
 Section Statements.
@@ -105,7 +105,35 @@ Section Statements.
     Forall (fun c => blen c <= slice_limit e o) out /\
     (forall k, (k < length out)%nat -> fails k = false).
   Proof. exact (slices_reassemble H sig_ok key_ok user_of tok1_ok tok2_ok n3_ok). Qed.
+  (* ---- the executable reference of the check (Spec.stored_okb) against the Prop stored_ok ----
+     Whatever stored_okb accepts satisfies stored_ok: a stored object violating the right-hand
+     side of the theorems above cannot pass the reference evaluation of the check. *)
+  Theorem C24_reference_is_spec : forall e allow_all o pl,
+    stored_okb H sig_ok key_ok user_of tok1_ok tok2_ok n3_ok e allow_all o pl = true -> stored_ok e allow_all o pl.
+  Proof. exact (stored_okb_sound H sig_ok key_ok user_of tok1_ok tok2_ok n3_ok). Qed.
+
+  (* Full equivalence wanted: stored_okb = true <-> stored_ok. The converse does NOT hold in
+     general: the executable form is strictly stronger in three places it shares with the
+     admission model (authenticate bounds the script lengths; check_ec_part requires a non-empty,
+     long enough hash attribute; the parent header of an EC part must classify). Proved
+     (partial): the converse with exactly these three as premises. *)
+  Theorem C24_reference_complete_partial : forall e allow_all o pl,
+    stored_ok e allow_all o pl ->
+    (is_ec_obj e o = false -> script_len_ok o) ->
+    (is_ec_obj e o = true ->
+       check_ec_part o (e_rules e) = true /\
+       forall p, o_parent o = Some p ->
+                 check_ec p (e_rules e) false true <> None /\
+                 (check_ec p (e_rules e) false true = Some false -> script_len_ok p)) ->
+    stored_okb H sig_ok key_ok user_of tok1_ok tok2_ok n3_ok e allow_all o pl = true.
+  Proof. exact (stored_okb_complete_partial H sig_ok key_ok user_of tok1_ok tok2_ok n3_ok). Qed.
 End Statements.
+
+(* the attribute loop of checkAttributes (running key set) = the nodupb/forallb form of the
+   reference = the declarative attrs_ok (NoDup keys, no empty value, no zero byte) *)
+Theorem C24_attr_loop_is_spec : forall attrs,
+  check_attrs attrs = attrs_okb attrs /\ (attrs_okb attrs = true <-> attrs_ok attrs).
+Proof. intros attrs. split; [apply check_attrs_eq_okb | apply attrs_okb_spec]. Qed.
 
 (* ---- non-vacuity -------------------------------------------------------------------------- *)
 (* the streaming premise is satisfiable: accumulate, then hash *)
@@ -140,6 +168,11 @@ Example C24_repl_accepts : m_run_repl [] ex_env (ex_obj [1;2;3]) false = Some (e
 Proof. vm_compute. reflexivity. Qed.
 Example C24_reference_holds_on_example : m_stored_okb [] ex_env false (ex_obj []) [1;2;3] = true.
 Proof. vm_compute. reflexivity. Qed.
+(* the premises of C24_reference_complete_partial hold on the example (not an EC part, script lengths 33 and 64) *)
+Example C24_reference_complete_premises :
+  is_ec_obj ex_env (ex_obj []) = false /\ script_len_ok (ex_obj []) /\
+  check_attrs (o_attrs (ex_obj [])) = true.
+Proof. split; [reflexivity|]. split; [|reflexivity]. unfold script_len_ok. cbn. split; intro Hc; discriminate Hc. Qed.
 (* trusted path: unsigned header of the node's own user, limit 2, 5 bytes in 2 chunks -> 3 children *)
 Definition ex_hdr : obj :=
   mkobj (Some (2, 18)) TRegular 50 None [255;254;1] 1 [1] 0 [] 0 None [] None None None
@@ -160,3 +193,6 @@ Print Assumptions C24_chunking_irrelevant.
 Print Assumptions C24_size_mismatch_rejected.
 Print Assumptions C24_short_payload_rejected.
 Print Assumptions C24_slices_reassemble_partial.
+Print Assumptions C24_reference_is_spec.
+Print Assumptions C24_reference_complete_partial.
+Print Assumptions C24_attr_loop_is_spec.
